@@ -95,6 +95,18 @@ class Ratio(float):
     return 'Ratio(%s)' % float.__repr__(self)
 
 
+class Steps(int):
+  """inherits int's repr: the text of Steps(3) is the int literal 3"""
+
+
+class Name(str):
+  """inherits str's repr"""
+
+
+class Share(float):
+  """inherits float's repr"""
+
+
 _ENUMS = {}
 
 
@@ -123,18 +135,24 @@ def twin(kind, base):
     return Ratio(base)
   if kind == 'eqbad':
     return EqualBadRepr(int(base))
+  if kind == 'intplain':       # subclasses that INHERIT the base repr: their text is the base literal
+    return Steps(base)
+  if kind == 'strplain':
+    return Name(base)
+  if kind == 'floatplain':
+    return Share(base)
   raise ValueError(kind)
 
 
 def twin_kinds(base):
   t = base[0]
   if t == 'i':
-    return ['intenum', 'decimal', 'fraction', 'intsub', 'eqbad'] + (['complex'] if base[1] else [])
+    return ['intenum', 'decimal', 'fraction', 'intsub', 'eqbad', 'intplain'] + (['complex'] if base[1] else [])
   if t == 'b':
     return ['intenum', 'decimal', 'fraction'] + (['complex'] if base[1] else [])
   if t == 'float':
-    return ['decimal', 'fraction', 'floatsub'] + (['complex'] if float(base[1]) else [])
-  return ['strenum', 'strsub']
+    return ['decimal', 'fraction', 'floatsub', 'floatplain'] + (['complex'] if float(base[1]) else [])
+  return ['strenum', 'strsub', 'strplain']
 
 
 def equal_literals(base):
@@ -348,6 +366,10 @@ class SerialEngine(Engine):
                         ['bind', 'g.a', ['t', [['eqv', 'intenum', ['b', True]], ['eqv', 'strsub', ['s', 'y']]]]],
                         ['bind', 'g.b', ['t', [['b', True], ['s', 'y']]]], ['bind', 'foo.a', ['eqv', 'eqbad', ['i', 7]]], ['bind', 'foo.b', ['i', 7]],
                         ['bind', 'Foo.c', ['eqv', 'floatsub', ['float', '2.0']]], ['bind', 'Foo.b', ['i', 2]]], maxlen=40),
+        # subclasses of int / str / float that inherit the base repr (their text is the base literal), alone and inside containers
+        dict(base, ops=[['bind', 'f.a', ['eqv', 'intplain', ['i', 3]]], ['bind', 'f.b', ['i', 3]], ['bind', 'g.a', ['eqv', 'strplain', ['s', 'run']]],
+                        ['bind', 'g.b', ['l', [['eqv', 'floatplain', ['float', '1.5']], ['i', 1]]]],
+                        ['bind', 'g.c', ['d', [[['eqv', 'strplain', ['s', 'k']], ['i', 1]]]]]]),
     ]
 
   def gen(self, rng, tier):
@@ -427,14 +449,16 @@ class SerialEngine(Engine):
       text = b.text()            # before the harness itself asks gin anything about the values
       md = gin.config.markdown(text)
       entries = []
-      for (s, q), d in cfg._CONFIG.items():  # pylint: disable=protected-access
-        params = []
-        for p, v in d.items():
-          ok = lit_class(v, cfg)
-          if ok is None:
-            ok = cfg._is_literally_representable(v)  # pylint: disable=protected-access
-          params.append([p, bool(ok), pprint.pformat(v, width=width).split('\n')])
-        entries.append([s, q, params, bool(cfg._REGISTRY[q].is_method)])  # pylint: disable=protected-access
+      # config_str formats values inside a parse scope of its own (how a reference spells its selector may depend on it)
+      with cfg._parse_scope(import_manager=cfg.ImportManager(cfg._IMPORTS)):  # pylint: disable=protected-access
+        for (s, q), d in cfg._CONFIG.items():  # pylint: disable=protected-access
+          params = []
+          for p, v in d.items():
+            ok = lit_class(v, cfg)
+            if ok is None:
+              ok = cfg._is_literally_representable(v)  # pylint: disable=protected-access
+            params.append([p, bool(ok), pprint.pformat(v, width=width).split('\n')])
+          entries.append([s, q, params, bool(cfg._REGISTRY[q].is_method)])  # pylint: disable=protected-access
       imports = sorted([[st.module, bool(st.is_from), st.alias] for st in cfg._IMPORTS], key=repr)  # pylint: disable=protected-access
       registry = [k for k, _ in cfg._REGISTRY.items()]  # pylint: disable=protected-access
       return registry, imports, entries, text, md, b.store(), b
@@ -851,4 +875,356 @@ class DynStrEngine(Engine):
       w.close()
 
 
-ENGINES = [SerialEngine(), ValueTextEngine(), DynStrEngine()]
+# ---------------------------------------------------------------- corners of the text: reference spellings, late names, unordered keys, ...
+CT_REGS = ['a.foo', 'b.bar', 'pkg.sub.h', 'user', 'pkg.other.k']
+# registered AFTER the bindings were made: each makes a shorter spelling of an earlier name ambiguous
+CT_LATE = ['b.foo', 'z.a.foo', 'x.bar', 'q.sub.h', 'late.user', 'w.k', 'w.other.k']
+CT_BAD_REPRS = ['"abc', "'abc", "'''abc", '(1, 2', '[1,', '{', '1 \\', '\\', '1__0', '0x', "b'\\xff", '@user(', '@nosuch', '<Foo "x>', "<Foo it's>",
+                '<Foo [1, 2>', '5', "'s'", '[1, 2))', '$', 'a b', '}', '@user']
+
+
+class OddRepr:
+  """an object that is no literal, whatever its repr looks like"""
+
+  def __init__(self, text):
+    self.text = text
+
+  def __repr__(self):
+    return self.text
+
+
+def ct_spellings(sel, regs):
+  return ginm.spellings(sel, [{'sel': x} for x in regs])
+
+
+def ct_text(v, which):
+  """gin text of a value tree; a reference is ['ref', scopes, selector, evaluate, [spelling A, spelling B]]"""
+  t = v[0]
+  if t == 'ref':
+    return '@' + '/'.join(list(v[1]) + [v[4][which]]) + ('()' if v[3] else '')
+  if t == 'macro':
+    return '%' + v[1]
+  if t in ('c', 'float'):
+    return v[1]
+  if t == 'l':
+    return '[' + ', '.join(ct_text(x, which) for x in v[1]) + ']'
+  if t == 't':
+    return '(' + ', '.join(ct_text(x, which) for x in v[1]) + (',' if len(v[1]) == 1 else '') + ')'
+  if t == 'd':
+    return '{' + ', '.join(ct_text(k, which) + ': ' + ct_text(x, which) for k, x in v[1]) + '}'
+  return ginm.val_text(v)
+
+
+def ct_canon(cfg, v, by_object=False):
+  """type-exact, spelling-free, order-free picture of a stored value"""
+  if isinstance(v, cfg.ConfigurableReference):
+    return ('Ref', '/'.join(v.scopes), id(v.configurable.wrapped) if by_object else v.configurable.selector, bool(v.evaluate))
+  if type(v) in (list, tuple):
+    return (type(v).__name__,) + tuple(ct_canon(cfg, x, by_object) for x in v)
+  if type(v) is dict:
+    return ('dict',) + tuple(sorted(((ct_canon(cfg, k, by_object), ct_canon(cfg, x, by_object)) for k, x in v.items()), key=repr))
+  return (type(v).__name__, repr(v))
+
+
+def ct_store(cfg, by_object=False):
+  out = {}
+  for (s, q), d in cfg._CONFIG.items():  # pylint: disable=protected-access
+    for p, v in d.items():
+      out[(s, id(cfg._REGISTRY[q].wrapped) if by_object else q, p)] = ct_canon(cfg, v, by_object)  # pylint: disable=protected-access
+  return out
+
+
+def ct_register(gin, sels):
+  for sel in sels:
+    name = sel.split('.')[-1]
+    env = {}
+    exec('def %s(p=None, q=None, r=None):\n  return None\n' % name, env)  # pylint: disable=exec-used
+    fn = env[name]
+    fn.__module__ = None
+    gin.configurable(name, module='.'.join(sel.split('.')[:-1]) or None)(fn)
+
+
+def ct_round_trip(gin, fails, expect_absent=(), by_object=False, maxlen=80):
+  """config_str() of the current configuration: it is produced, parses into the cleared configuration, restores every
+  binding (all but expect_absent) type-exactly with the same referents, and serialising again gives the identical text"""
+  cfg = gin.config
+  before = ct_store(cfg, by_object)
+  try:
+    text = gin.config_str(maxlen)
+  except Exception as e:  # pylint: disable=broad-except
+    fails.append(('config-str-raised', '%s: %s; the configuration holds %r' % (type(e).__name__, str(e)[:160], sorted(map(repr, before))[:8])))
+    return None
+  gin.clear_config()
+  try:
+    gin.parse_config(text)
+  except Exception as e:  # pylint: disable=broad-except
+    fails.append(('config-str-does-not-parse', '%s: %s; text %r' % (type(e).__name__, str(e)[:160], text)))
+    return text
+  after = ct_store(cfg, by_object)
+  want = {k: v for k, v in before.items() if (k[0], k[2]) not in expect_absent and k[2] not in expect_absent}
+  if after != want:
+    diff = {repr(k): (want.get(k), after.get(k)) for k in set(want) | set(after) if want.get(k) != after.get(k)}
+    fails.append(('round-trip-lost-or-changed', 'differences (bound, restored from the text): %r; text %r' % (diff, text)))
+    return text
+  text2 = gin.config_str(maxlen)
+  if text2 != text:
+    fails.append(('not-idempotent', 'first %r second %r' % (text, text2)))
+  return text
+
+
+class CornerEngine(Engine):
+  """Configurations the serial engine's universe does not reach, each judged from the property text alone (implementation
+  only; nothing here is modelled):
+  respell   the same bindings with every reference spelled in two of its valid ways ('the text depends only on the set of
+            bindings'), optionally followed by registrations that make a used spelling ambiguous (the text must still be
+            produced, parse and restore the same referents);
+  dynalias  dynamic registration, several files importing one module under different names, references inside lists,
+            as dict keys and dict values;
+  keys      dict values whose keys Python cannot order (references, macros, complex numbers, tuples of mixed types),
+            written in every order: one text, and a fixed point;
+  rootmacro gin.macro's own parameter bound in the root scope (macro.value = v) next to ordinary macros;
+  unprintable  values whose repr cannot be produced, tokenised or parsed (nesting beyond the tokenizer's limit, integers
+            beyond the int->str limit, objects whose repr has an unterminated quote / bracket): omitted, never an error."""
+  name = 'config-str-corners'
+  model = False
+
+  def budget(self, tier):
+    return 120 if tier == 'quick' else 3000
+
+  def ref(self, rng, sel, scopes=None, evaluate=None):
+    sp = ct_spellings(sel, CT_REGS)
+    return ['ref', scopes if scopes is not None else rng.choice([[], [], ['s1'], ['s1', 's2']]), sel,
+            rng.random() < 0.4 if evaluate is None else evaluate, [rng.choice(sp), rng.choice(sp)]]
+
+  def corpus(self):
+    R = lambda sel, a, b, sc=(), ev=False: ['ref', list(sc), sel, ev, [a, b]]
+    cases = [
+        {'kind': 'respell', 'late': [], 'binds': [['user.p', R('a.foo', 'foo', 'a.foo')]]},
+        {'kind': 'respell', 'late': ['b.foo'], 'binds': [['user.p', R('a.foo', 'foo', 'foo')], ['user.q', ['i', 1]]]},
+        {'kind': 'respell', 'late': ['q.sub.h', 'x.bar'], 'binds': [['s1/user.p', ['l', [R('pkg.sub.h', 'h', 'sub.h', ['s2'], True), R('b.bar', 'bar', 'b.bar')]]],
+                                                                     ['foo.p', ['d', [[['s', 'k'], R('pkg.other.k', 'k', 'other.k')]]]]]},
+        {'kind': 'dynalias', 'files': [['as', 'j', [['', 'f', 'x', ['i', 3]]]],
+                                       ['as', 'k', [['', 'f', 'y', ['d', [[['dref', [], 'g', False], ['i', 1]]]]], ['', 'f', 'z', ['l', [['dref', [], 'g', False]]]]]]]},
+        {'kind': 'dynalias', 'files': [['plain', None, [['s1', 'g', 'x', ['dref', [], 'f', True]]]],
+                                       ['from', None, [['', 'C', 'y', ['d', [[['dref', ['s1'], 'C', False], ['dref', [], 'f', False]]]]]]]]},
+        {'kind': 'keys', 'items': [[R('a.foo', 'foo', 'foo'), ['i', 1]], [R('b.bar', 'bar', 'bar'), ['i', 2]], [R('pkg.sub.h', 'h', 'h'), ['i', 3]]]},
+        {'kind': 'keys', 'items': [[['c', '1j'], ['i', 1]], [['c', '2j'], ['i', 2]], [['c', '3j'], ['i', 3]]]},
+        {'kind': 'keys', 'items': [[['macro', 'm1'], ['i', 1]], [R('a.foo', 'foo', 'foo', (), True), ['i', 2]], [['macro', 'm2'], ['i', 3]]]},
+        {'kind': 'keys', 'items': [[['t', [['i', 1], ['s', 'a']]], ['i', 1]], [['t', [['i', 1], ['i', 2]]], ['i', 2]], [['t', [['i', 1], ['n']]], ['i', 3]]]},
+        {'kind': 'rootmacro', 'spelling': 'macro.value', 'via': 'parse', 'value': ['i', 5], 'others': []},
+        {'kind': 'rootmacro', 'spelling': 'gin.macro.value', 'via': 'bind', 'value': ['l', [['s', 'x']]], 'others': [['mm', ['i', 3]], ['s1/nn', ['s', 'v']]]},
+        {'kind': 'unprintable', 'what': ['deep', 'l', 250], 'at': 'top'}, {'kind': 'unprintable', 'what': ['bigint', 5000], 'at': 'top'},
+        {'kind': 'unprintable', 'what': ['deep', 't', 199], 'at': 'top'}, {'kind': 'unprintable', 'what': ['deep', 'd', 200], 'at': 'inlist'},
+        {'kind': 'unprintable', 'what': ['bigint', 4300], 'at': 'inlist'}, {'kind': 'unprintable', 'what': ['bigint', 4301], 'at': 'macro'},
+    ]
+    cases += [{'kind': 'unprintable', 'what': ['repr', r], 'at': at} for r in CT_BAD_REPRS for at in (['top', 'macro'] if r in ('"abc', '5') else ['top'])]
+    return cases
+
+  def gen_refval(self, rng, depth=1):
+    r = rng.random()
+    sel = rng.choice(CT_REGS)
+    if depth <= 0 or r < 0.4:
+      return self.ref(rng, sel)
+    if r < 0.6:
+      return ['l', [self.gen_refval(rng, depth - 1) if rng.random() < 0.7 else ginm.gen_plain(rng, 0) for _ in range(rng.randint(1, 3))]]
+    if r < 0.75:
+      return ['t', [self.gen_refval(rng, depth - 1) for _ in range(rng.randint(1, 2))]]
+    if r < 0.9:
+      return ['d', [[['s', 'k%d' % i], self.gen_refval(rng, depth - 1)] for i in range(rng.randint(1, 2))]]
+    sels = rng.sample(CT_REGS, rng.randint(1, 2))
+    return ['d', [[self.ref(rng, x, scopes=[]), ginm.gen_plain(rng, 0)] for x in sels]]
+
+  def gen(self, rng, tier):
+    k = rng.random()
+    if k < 0.4:
+      binds, seen = [], set()
+      for _ in range(rng.randint(1, 4)):
+        key = '/'.join(ginm.gen_scope(rng, 2) + [rng.choice(ct_spellings(rng.choice(CT_REGS), CT_REGS)) + '.' + rng.choice('pqr')])
+        if key not in seen:
+          seen.add(key)
+          binds.append([key, self.gen_refval(rng) if rng.random() < 0.8 else ginm.gen_plain(rng, 1)])
+      return {'kind': 'respell', 'late': rng.sample(CT_LATE, rng.choice([0, 0, 1, 2, 3])), 'binds': binds}
+    if k < 0.55:
+      files = []
+      for _ in range(rng.randint(1, 3)):
+        form = rng.choice(['plain', 'as', 'as', 'from', 'fromas'])
+        alias = rng.choice(['j', 'k', 'u']) if form in ('as', 'fromas') else None
+        binds = []
+        for _ in range(rng.randint(1, 3)):
+          dref = lambda: ['dref', rng.choice([[], [], ['s1']]), rng.choice(['f', 'g', 'C']), rng.random() < 0.3]
+          v = rng.choice([lambda: ['i', rng.randint(0, 9)], dref, lambda: ['l', [dref(), ['i', 1]]], lambda: ['d', [[dref(), ['i', 1]]]],
+                          lambda: ['d', [[['s', 'k'], dref()]]], lambda: ['d', [[['dref', [], 'f', False], dref()], [['dref', [], 'g', False], ['i', 2]]]]])()
+          binds.append([rng.choice(['', '', 's1']), rng.choice(['f', 'g', 'C']), rng.choice('xyz'), v])
+        files.append([form, alias, binds])
+      return {'kind': 'dynalias', 'files': files}
+    if k < 0.75:
+      pool = rng.choice([
+          [self.ref(rng, x, scopes=[], evaluate=False) for x in CT_REGS],
+          [['c', x] for x in ('1j', '2j', '3j', '2.5j', '10j')],
+          [['macro', 'm1'], ['macro', 'm2'], ['macro', 's1/m1']] + [self.ref(rng, x, scopes=[]) for x in CT_REGS[:2]],
+          [['t', [['i', 1], ['s', 'a']]], ['t', [['i', 1], ['i', 2]]], ['t', [['i', 1], ['n']]], ['t', [['s', 'a'], ['i', 0]]]],
+          [['i', 1], ['s', 'a'], ['i', 10], ['s', 'b'], ['n']],              # control: pprint orders these by type name
+      ])
+      keys, seen = [], set()
+      for x in rng.sample(pool, rng.randint(2, min(4, len(pool)))):
+        if repr(x[:4]) not in seen:
+          seen.add(repr(x[:4]))
+          keys.append(x)
+      return {'kind': 'keys', 'items': [[x, ginm.gen_plain(rng, 0)] for x in keys]}
+    if k < 0.85:
+      return {'kind': 'rootmacro', 'spelling': rng.choice(['macro.value', 'gin.macro.value']), 'via': rng.choice(['parse', 'bind']),
+              'value': ginm.gen_plain(rng, 1), 'others': [[n, ginm.gen_plain(rng, 0)] for n in rng.sample(['mm', 'nn', 's1/mm'], rng.randint(0, 2))]}
+    what = rng.choice([['deep', rng.choice('ltd'), rng.choice([20, 150, 198, 199, 200, 201, 250, 400])],
+                       ['bigint', rng.choice([100, 4299, 4300, 4301, 6000])], ['repr', rng.choice(CT_BAD_REPRS)]])
+    return {'kind': 'unprintable', 'what': what, 'at': rng.choice(['top', 'top', 'inlist', 'macro'])}
+
+  def shrink(self, case):
+    for f in ('binds', 'late', 'items', 'others', 'files'):
+      if f in case:
+        for i in range(len(case[f])):
+          yield dict(case, **{f: case[f][:i] + case[f][i + 1:]})
+
+  # -- the five families
+  def respell(self, case, fails):
+    texts, stores = [], []
+    for which in (0, 1):
+      gin = C.fresh_gin()
+      ct_register(gin, CT_REGS)
+      try:
+        gin.parse_config(''.join('%s = %s\n' % (key, ct_text(v, which)) for key, v in case['binds']))
+      except Exception as e:  # pylint: disable=broad-except
+        return [T('ParseError', type(e).__name__)], ['parse-error']
+      ct_register(gin, case['late'])
+      stores.append(ct_store(gin.config))
+      sub = []
+      texts.append(ct_round_trip(gin, sub))
+      fails += [(k, 'references spelled %s%s: %s' % ('AB'[which], ', then %r registered' % case['late'] if case['late'] else '', d)) for k, d in sub]
+    if stores[0] == stores[1] and None not in texts and texts[0] != texts[1]:
+      fails.append(('reference-spelling-dependent-text', 'the same bindings (equal values, same referents) written with other valid spellings of '
+                    'the references give %r and %r' % (texts[0], texts[1])))
+    return [T('Done')], ['late%d' % min(len(case['late']), 2)]
+
+  def dynalias(self, case, fails):
+    from harness.props import c19
+    gin = C.fresh_gin()
+    w = c19.World()
+    try:
+      for form, alias, binds in case['files']:
+        imp = {'plain': 'import pkga.util', 'as': 'import pkga.util as %s' % alias, 'from': 'from pkga import util',
+               'fromas': 'from pkga import util as %s' % alias}[form]
+        name = alias or ('pkga.util' if form == 'plain' else 'util')
+
+        def vt(v):
+          if v[0] == 'dref':
+            return '@' + '/'.join(list(v[1]) + [name + '.' + v[2]]) + ('()' if v[3] else '')
+          if v[0] == 'l':
+            return '[' + ', '.join(vt(x) for x in v[1]) + ']'
+          if v[0] == 'd':
+            return '{' + ', '.join(vt(a) + ': ' + vt(b) for a, b in v[1]) + '}'
+          return ginm.val_text(v)
+        text = 'from __gin__ import dynamic_registration\n%s\n' % imp
+        text += ''.join('%s%s.%s.%s = %s\n' % (sc + '/' if sc else '', name, leaf, p, vt(v)) for sc, leaf, p, v in binds)
+        try:
+          gin.parse_config(text)
+        except Exception as e:  # pylint: disable=broad-except
+          return [T('ParseError', type(e).__name__)], ['parse-error']
+      ct_round_trip(gin, fails, by_object=True)
+      return [T('Done')], ['files%d' % len(case['files'])]
+    finally:
+      w.close()
+
+  def keys(self, case, fails):
+    import itertools
+    items = case['items']
+    perms = list(itertools.permutations(range(len(items))))
+    if len(perms) > 6:
+      perms = perms[:1] + perms[-1:] + perms[5::5][:4]
+    texts = []
+    for perm in perms:
+      gin = C.fresh_gin()
+      ct_register(gin, CT_REGS)
+      src = 'm1 = 1\nm2 = 2\ns1/m1 = 3\nuser.p = {%s}\n' % ', '.join(ct_text(items[i][0], 0) + ': ' + ct_text(items[i][1], 0) for i in perm)
+      try:
+        gin.parse_config(src)
+      except Exception as e:  # pylint: disable=broad-except
+        return [T('ParseError', type(e).__name__)], ['parse-error']
+      sub = []
+      texts.append(ct_round_trip(gin, sub, maxlen=40 if len(items) > 3 else 80))
+      if sub:
+        fails += [(k, 'dict written as %r: %s' % (src.splitlines()[-1], d)) for k, d in sub]
+        break
+    if not fails and len(set(texts)) > 1:
+      a, b = sorted(set(texts))[:2]
+      fails.append(('dict-key-order-dependent-text', 'one dict value (same keys, same values) written in two orders gives %r and %r' % (a, b)))
+    return [T('Done')], ['perms%d' % len(perms)]
+
+  def rootmacro(self, case, fails):
+    gin = C.fresh_gin()
+    ct_register(gin, CT_REGS)
+    b = Builder({'modules': [], 'sels': []})
+    for name, v in case['others']:
+      gin.parse_config('%s = %s\nfoo.p = %%%s' % (name, ginm.val_text(v), name))
+    if case['via'] == 'parse':
+      gin.parse_config('%s = %s' % (case['spelling'], ginm.val_text(case['value'])))
+    else:
+      gin.bind_parameter(case['spelling'], b.value(case['value']))
+    gin.parse_config('user.p = %anything')
+    ct_round_trip(gin, fails)
+    return [T('Done')], [case['via']]
+
+  def unprintable(self, case, fails):
+    gin = C.fresh_gin()
+    ct_register(gin, CT_REGS)
+    what = case['what']
+    literal = None       # None: gin may restore it or leave it out; False: it has no literal form and must not come back
+    if what[0] == 'deep':
+      v = {'l': [], 't': (), 'd': {}}[what[1]]
+      for _ in range(what[2]):
+        v = {'l': lambda x: [x], 't': lambda x: (x,), 'd': lambda x: {'k': x}}[what[1]](v)
+      literal = True if what[2] + (case['at'] == 'inlist') < 150 else None
+    elif what[0] == 'bigint':
+      v = 10 ** (what[1] - 1)            # what[1] digits
+      literal = True if what[1] <= 4000 else None
+    else:
+      v = OddRepr(what[1])
+      literal = False
+    key = 'user.p'
+    if case['at'] == 'inlist':
+      v = [1, v]
+    if case['at'] == 'macro':
+      key = 'mm/gin.macro.value'
+      gin.parse_config('user.r = %mm')
+    gin.bind_parameter(key, v)
+    gin.bind_parameter('user.q', 1)
+    cfg = gin.config
+    try:
+      text = gin.config_str()
+    except Exception as e:  # pylint: disable=broad-except
+      fails.append(('config-str-raised-for-unprintable-value', '%s: %s; %s bound to %s' % (type(e).__name__, str(e)[:120], key, case['what'])))
+      return [T('Done')], [what[0]]
+    gin.clear_config()
+    try:
+      gin.parse_config(text)
+    except Exception as e:  # pylint: disable=broad-except
+      fails.append(('config-str-does-not-parse', '%s: %s; text %r' % (type(e).__name__, str(e)[:160], text[:300])))
+      return [T('Done')], [what[0]]
+    store = {(s, q, p): x for (s, q), d in cfg._CONFIG.items() for p, x in d.items()}  # pylint: disable=protected-access
+    k3 = ('mm', 'gin.macro', 'value') if case['at'] == 'macro' else ('', 'user', 'p')
+    if store.get(('', 'user', 'q')) != 1:
+      fails.append(('round-trip-lost-or-changed', 'user.q = 1 is not restored from %r' % text[:300]))
+    elif k3 in store and (literal is False or not py_same(store[k3], v)):
+      fails.append(('non-literal-value-emitted' if literal is False else 'restored-binding-differs',
+                    '%s was bound to %s; the text restores %s' % (key, case['what'], repr(store[k3])[:80])))
+    elif k3 not in store and literal:
+      fails.append(('representable-binding-not-restored', '%s bound to %s is not restored' % (key, case['what'])))
+    elif gin.config_str() != text:
+      fails.append(('not-idempotent', 'first %r' % text[:300]))
+    return [T('Done')], [what[0], 'restored' if k3 in store else 'omitted']
+
+  def impl(self, case):
+    fails = []
+    obs, tags = getattr(self, case['kind'])(case, fails)
+    return {'obs': obs, 'fails': fails[:3], 'nontrivial': 'parse-error' not in tags, 'tags': [case['kind']] + tags}
+
+
+ENGINES = [SerialEngine(), ValueTextEngine(), DynStrEngine(), CornerEngine()]
